@@ -9,7 +9,7 @@ CLAIMS = {
           "failing-unit set, thread count 1..4 and worker completion order within the bound: a finished run wrote exactly "
           "the valid peptides of all non-skipped transcripts. Real runs (thread counts, record partitions into files, file "
           "orders, .idx, index directory, hash seeds) are recorded by guarded hooks and every event must be the spec action "
-          "with the logged values (CallVariantRunTrace.tla), with the invariants evaluated at each step. Runs with an injected timeout on one transcript (retry ladder 7,1 / 2,0) under --threads 1 and 2 must give the same peptide set (MonotoneTrace kind same)."),
+          "with the logged values (CallVariantRunTrace.tla), with the invariants evaluated at each step. Runs with an injected timeout on one transcript (retry ladder 7,1 / 2,0) under --threads 1 and 2 must give the same peptide set (MonotoneTrace kind same); a pair that differs is repeated 6 more times per thread count and only counted as thread dependence when each thread count is stable by itself (recorded finding: with binding limits identical runs of the unchanged tool differ)."),
     note=("Per-unit peptide sets of an input are taken from a threads=1 reference run of the same tree; the schedule space is "
           "exhaustive in the model and sampled in real runs; Biopython compat shim (harness/compat) is trusted."),
     technique="TLA+ state machine + TLC exhaustive check; trace validation of hooked real runs", ref='6 C06'),
@@ -67,7 +67,7 @@ CLAIMS['C13'] = dict(
     technique="TLA+ format definition + state machine; TLC validation of recorded round trips and file histories", ref='6 C13')
 CLAIMS['C01'] = dict(
     text=("spec/Variants.tla + Peptides.tla define, with no graph, the set C01 requires: for every compatible haplotype of the usable variants (adjacent same-class pairs merged as --max-adjacent-as-mnv does; alternative-splicing insertion / deletion / substitution records in the replace-[start,end)-by-alt form that Rmats.tla proves equal to their denotation), apply it to the transcript, translate from every permitted start to the stop (annotated Sec read as U, Sec-terminated forms and W>F images when those flags are on), digest under the case's rule/exception/miscleavage/limits incl. M-removed start peptides, and subtract the digest of the unmodified transcript (incl. its Sec-terminated / W>F forms when switched on) and the canonical pool. CallVariantOracle has TLC compute that set for each generated input and compare it with the FASTA the real callVariant wrote (Complete subset of output). 510 / 13 600 inputs over 17 modes: random references (both strands, coding/non-coding, multi-exon, NF tags, Sec, several genes), 1-5 small variants per transcript incl. dense clusters, adjacent and multi-allelic sites, variants aimed at stop codons (SNV, merged pair, MNV record, indels), alt-translation flags, Gly/Ala-rich proteins with binding mass limits, AS records, 13 / 35 enzymes, collapse knobs; complexity limits off."),
-    note=("Bounded exhaustive per input (all haplotypes) but sampled over inputs; small variants inside one exon; fusion backbones are covered for coding donors whose exonic part kept contains the start codon, with the small variants of the donor and acceptor genes placed on the fused sequence (clause fusion_peptides_complete of FusionTrace on the C15 campaign; every compatible subset of the variants the tool's lookup takes), and circRNA backbones for circles whose host transcript has no small variant in the input (clause circ_peptides_complete of CircTrace on the C17 campaign: circle read as four copies, every ATG of the first copy); circRNA completeness WITH small variants is exercised only by C05-C07 runs; variants nested in an inserted AS segment are supported by the spec but off by default (VERIF_NESTED=1) because the tool's output for them is not deterministic run to run; recorded findings: cleavage patterns beyond P1/P1' evaluated per graph node, --naa-to-collapse 1, phantom cleavage sites in AS segments with nested variants."),
+    note=("Bounded exhaustive per input (all haplotypes) but sampled over inputs; small variants inside one exon; fusion backbones are covered for coding donors whose exonic part kept contains the start codon, with the small variants of the donor and acceptor genes placed on the fused sequence (clause fusion_peptides_complete of FusionTrace on the C15 campaign; every compatible subset of the variants the tool's lookup takes), and circRNA backbones with the host transcript's small variants on the circle (clause circ_peptides_complete of CircTrace on the C17 campaign: circle read as four copies, every ATG of the first copy, every compatible subset of the variants lying inside a fragment off its first four bases and its last base); variants nested in an inserted AS segment are supported by the spec but off by default (VERIF_NESTED=1) because the tool's output for them is not deterministic run to run; recorded findings: cleavage patterns beyond P1/P1' evaluated per graph node, --naa-to-collapse 1, phantom cleavage sites in AS segments with nested variants."),
     technique='TLA+ definitional oracle evaluated by TLC per recorded input; implementation output validated against it', ref='12.4')
 CLAIMS['C02'] = dict(
     text=("Same oracle, other inclusion: every FASTA sequence must lie in Sound (as Complete, but with the permissive adjacency rule, open-ended tail fragments, all nested variants, and W>F images of every product of a variant haplotype). In addition inputs are re-run with binding complexity limits (max-variants-per-node 0/1/2, additional-variants-per-misc 0/1) and with injected TimeoutErrors that walk caller_reducer's retry ladder (guarded hook): the outputs must stay inside the unlimited output, i.e. limits and retries only remove peptides."),
